@@ -157,6 +157,37 @@ func main() {
 			if !compare(c, "Copy", seq, vv.Copy(), ref) || !compare(c, "Builder().Build", seq, vv.Builder().Build(), ref) {
 				continue
 			}
+			// a built set is read-only: mutating a builder derived from it (or from its copy) must not show in it
+			for _, m := range []pair{{9, 5}, {1, 0}, {2, 11}, {4, 3}} {
+				db := vv.Builder()
+				db.Set(idx.ValidatorID(m.ID), pos.Weight(m.W))
+				cb := vv.Copy().Builder()
+				cb.Set(idx.ValidatorID(m.ID), pos.Weight(m.W))
+				if !compare(c, fmt.Sprintf("original-after-derived-builder.Set(%d,%d)", m.ID, m.W), seq, vv, ref) {
+					break
+				}
+				if enc2, _ := rlp.EncodeToBytes(vv); true {
+					var dec2 pos.Validators
+					if err := rlp.DecodeBytes(enc2, &dec2); err != nil || !compare(c, "rlp-of-original-after-derived-builder.Set", seq, &dec2, ref) {
+						break
+					}
+				}
+				// and the derived builder builds the edited set
+				want := map[uint32]uint64{}
+				for k, v := range final {
+					want[k] = v
+				}
+				want[m.ID] = m.W
+				var wt uint64
+				for _, p := range refOrder(want) {
+					wt += p.W
+				}
+				if wt <= maxTotal {
+					if !compare(c, "derived-builder.Build", append(append([]pair{}, seq...), m), db.Build(), refOrder(want)) {
+						break
+					}
+				}
+			}
 			enc, err := rlp.EncodeToBytes(vv)
 			if err != nil {
 				c.Violation("rlp-encode", seq, "encode error %v", err)
